@@ -20,7 +20,7 @@ if [ "$REPO" != "/repo" ]; then
   MODARGS=(-modfile="$MF")
   export VERIF_EVIDENCE_DIR="$VERIF_DIR/build/evidence-scratch"
 fi
-cleanup() { rm -f "$BIN"/*-$$ "$VERIF_DIR/build/alt-$$.mod" "$VERIF_DIR/build/alt-$$.sum"; }
+cleanup() { rm -f "$BIN"/*-$$ "$VERIF_DIR/build/alt-$$.mod" "$VERIF_DIR/build/alt-$$.sum" "$VERIF_DIR/build/harvest-$$.json"; }
 trap cleanup EXIT
 
 build() { # name pkg extra-flags...
@@ -30,6 +30,13 @@ build() { # name pkg extra-flags...
     return 1
   fi
   rm -f "$BIN/$name-$$.log"
+}
+
+# constants of the tree under test (string and integer literals) for the dictionaries and size lists
+harvest() {
+  if go build "${MODARGS[@]}" -o "$BIN/harvest-$$" ./cmd/harvest 2>/dev/null && "$BIN/harvest-$$" "$REPO" > "$VERIF_DIR/build/harvest-$$.json" 2>/dev/null; then
+    export VERIF_HARVEST="$VERIF_DIR/build/harvest-$$.json"
+  fi
 }
 
 cmd="${1:-}"
@@ -42,6 +49,7 @@ case "$cmd" in
     exit 0
     ;;
   replay)
+    harvest
     build vcheck ./cmd/vcheck || exit 3
     f="${2:?replay file}"
     if grep -q '"property": "C14"' "$f" 2>/dev/null; then
@@ -54,6 +62,7 @@ case "$cmd" in
   C[0-9][0-9])
     prop="$cmd"; tier="${2:-quick}"
     seed="${VERIF_SEED:-0}"
+    harvest
     case "$prop" in
       C14)
         build vrace ./cmd/vrace -race || { echo "INCONCLUSIVE property=$prop reason=build-failed"; exit 3; }
